@@ -21,6 +21,7 @@ import sympy as sp
 from .vg import Term, show, is_const
 
 _ATOMS: Dict[Tuple[str, bool], sp.Symbol] = {}
+OPAQUE_MARK = "\u27e6"        # symbols created for constructs without a declared role start with this mark
 
 
 def atom(name: str, positive: bool = False) -> sp.Symbol:
@@ -28,6 +29,34 @@ def atom(name: str, positive: bool = False) -> sp.Symbol:
     if key not in _ATOMS:
         _ATOMS[key] = sp.Symbol(name, positive=True) if positive else sp.Symbol(name)
     return _ATOMS[key]
+
+
+class PyInt(sp.Function):
+    """Python's int(): truncation toward zero; evaluates on numbers, stays symbolic otherwise."""
+    @classmethod
+    def eval(cls, x):
+        if x.is_Integer:
+            return x
+        if x.is_Rational or x.is_Float:
+            return sp.Integer(int(x))
+        return None
+
+
+class PyRound(sp.Function):
+    """Python's round() to nearest, ties to even."""
+    @classmethod
+    def eval(cls, x):
+        if x.is_Integer:
+            return x
+        if x.is_Rational:
+            import fractions
+            return sp.Integer(round(fractions.Fraction(int(x.p), int(x.q))))
+        if x.is_Float:
+            return sp.Integer(round(float(x)))
+        return None
+
+
+_TERM_OF: Dict[str, Any] = {}      # opaque symbol name -> value-graph term
 
 
 def num(v: Any) -> sp.Expr:
@@ -70,8 +99,9 @@ class Translator:
         self.ufuncs = True
 
     def mk_atom(self, t: Term) -> sp.Expr:
-        name = show(t)
+        name = OPAQUE_MARK + show(t)
         self.atoms[name] = t
+        _TERM_OF[name] = t
         return atom(name, self.positive)
 
     def ufunc(self, name: str, *args: sp.Expr) -> sp.Expr:
@@ -129,6 +159,28 @@ class Translator:
                     return sp.conjugate(self.tr(t[2][0]))
                 if f == ".copy" and len(t[2]) == 1:
                     return self.tr(t[2][0])
+                if f in ("builtins.int",) and len(t[2]) == 1 and not t[3]:
+                    return PyInt(self.tr(t[2][0]))
+                if f in ("builtins.round",) and len(t[2]) == 1 and not t[3]:
+                    return PyRound(self.tr(t[2][0]))
+                if f in ("math.floor", "numpy.floor") and len(t[2]) == 1 and not t[3]:
+                    return sp.floor(self.tr(t[2][0]))
+                if f in ("math.ceil", "numpy.ceil") and len(t[2]) == 1 and not t[3]:
+                    return sp.ceiling(self.tr(t[2][0]))
+                if f in ("numpy.less", "numpy.greater", "numpy.less_equal", "numpy.greater_equal") and len(t[2]) == 2 and not t[3]:
+                    a, b = self.tr(t[2][0]), self.tr(t[2][1])
+                    if "greater" in f:
+                        a, b = b, a
+                    return sp.Function("cmp_le" if f.endswith("equal") else "cmp_lt")(a, b)
+                if f == "numpy.einsum" and len(t[2]) == 3 and is_const(t[2][0]) and not t[3]:
+                    spec = str(t[2][0][1]).replace(" ", "")
+                    if spec in ("ij,ij->i", "ik,ik->i"):
+                        return sp.Function(".sum|axis")(self.tr(t[2][1]) * self.tr(t[2][2]), sp.Integer(1))
+                    if spec in ("ij,ij->", "i,i->", "ijk,ijk->"):
+                        return sp.Function(".sum")(self.tr(t[2][1]) * self.tr(t[2][2]))
+                if f in ("numpy.sum", "numpy.mean", "numpy.prod", "numpy.max", "numpy.min") and t[2]:
+                    # function form of the reduction methods
+                    return self.tr(("call", "." + f.split(".")[1], t[2], t[3]))
                 if f == "numpy.where" and len(t[2]) == 3 and not t[3]:
                     c = self.rel(t[2][0])
                     if c is not None:
@@ -145,6 +197,17 @@ class Translator:
                 except Exception:
                     pass
             return self.mk_atom(t)
+        if k == "cmp" and t[1] in ("<", "<=", ">", ">=", "==", "!="):
+            a, b = self.tr(t[2]), self.tr(t[3])
+            if t[1] in (">", ">="):
+                a, b = b, a
+            if t[1] in ("==", "!="):
+                a, b = sorted((a, b), key=sp.default_sort_key)
+            name = {"<": "cmp_lt", ">": "cmp_lt", "<=": "cmp_le", ">=": "cmp_le", "==": "cmp_eq", "!=": "cmp_ne"}[t[1]]
+            return sp.Function(name)(a, b)
+        if k == "sub" and t[2][0] == "tuple" and t[2][1] and all(x == ("mod", "numpy.newaxis") or x == ("slice", ("const", None), ("const", None), ("const", None)) for x in t[2][1]) \
+                and any(x == ("mod", "numpy.newaxis") for x in t[2][1]):
+            return self.tr(t[1])        # pure broadcast reshaping: point-wise the same values
         if k == "attr" and t[2] == "real":
             return sp.re(self.tr(t[1]))
         if k == "attr" and t[2] == "imag":
@@ -213,6 +276,21 @@ def decide_equal(a: sp.Expr, b: sp.Expr, trig: bool = False) -> Tuple[Optional[b
                 return True, "trigsimp"
     except Exception:
         s = e
+    # A witness treats every uninterpreted construct as a free quantity.  That is only meaningful when both sides are built
+    # from the SAME uninterpreted constructs: two different opaque spellings may denote the same value.
+    oa, ob = opaque_parts(a), opaque_parts(b)
+    swapped_note = ""
+    if oa != ob:
+        only_a, only_b = sorted(oa - ob, key=str), sorted(ob - oa, key=str)
+        pairs = align_opaque(only_a, only_b)
+        if pairs is None:
+            return None, (f"sides involve different uninterpreted constructs (code only: {[str(x)[:70] for x in only_a[:2]]}; "
+                          f"reference only: {[str(x)[:70] for x in only_b[:2]]})")
+        # every construct that occurs on one side only is the same accessor / reduction as one on the other side applied at a
+        # definitely different index, axis or constant: they denote different quantities, so the sides differ as functions
+        swapped_note = "; ".join(f"code uses {str(x).replace(OPAQUE_MARK, '')[:90]} where the definition has {str(y).replace(OPAQUE_MARK, '')[:90]} ({why})" for x, y, why in pairs[:2])
+        if sp.simplify(d) != 0:
+            return False, swapped_note
     # witness search at exact rational points
     syms = sorted(d.free_symbols, key=lambda x: x.name)
     funcs = sorted(d.atoms(sp.Function) - d.atoms(sp.sin, sp.cos, sp.exp, sp.log, sp.Abs, sp.conjugate, sp.re, sp.im, sp.Min, sp.Max),
@@ -235,6 +313,167 @@ def decide_equal(a: sp.Expr, b: sp.Expr, trig: bool = False) -> Tuple[Optional[b
         except Exception:
             continue
     return None, f"no normal form reached and no separating rational point; residue {str(s)[:160]}"
+
+
+def align_opaque(xs, ys):
+    """Pair every construct of xs with one of ys that is definitely a different quantity of the same kind."""
+    if len(xs) != len(ys) or not xs:
+        return None
+    ys = list(ys)
+    out = []
+    for x in xs:
+        hit = None
+        for y in ys:
+            why = definitely_different(x, y)
+            if why:
+                hit = (y, why)
+                break
+        if hit is None:
+            return None
+        ys.remove(hit[0])
+        out.append((x, hit[0], hit[1]))
+    return out
+
+
+def definitely_different(x, y):
+    """x, y opaque sympy constructs.  Returns a reason when they are the same accessor / reduction applied at a different
+    numeric constant, axis or index expression (not identically equal), else None."""
+    if isinstance(x, sp.Symbol) and isinstance(y, sp.Symbol):
+        tx, ty = _TERM_OF.get(x.name), _TERM_OF.get(y.name)
+        if tx is None or ty is None:
+            return None
+        return term_definite_difference(tx, ty)
+    if isinstance(x, sp.core.function.AppliedUndef) and isinstance(y, sp.core.function.AppliedUndef):
+        if x.func != y.func or len(x.args) != len(y.args):
+            return None
+        if x.func.__name__ in ("cmp_lt", "cmp_le") and x.args == y.args[::-1]:
+            return "comparison direction reversed"
+        reason = None
+        for p, q in zip(x.args, y.args):
+            if p == q:
+                continue
+            if p.is_number and q.is_number:
+                reason = f"constant {p} vs {q}"
+                continue
+            sub = None
+            if opaque_parts(p) == opaque_parts(q):
+                try:
+                    if sp.simplify(p - q) != 0:
+                        sub = f"argument {sp.sstr(p)[:60]} vs {sp.sstr(q)[:60]}".replace(OPAQUE_MARK, "")
+                except Exception:  # noqa
+                    sub = None
+            elif opaque_parts(p) or opaque_parts(q):
+                pp, qq = sorted(opaque_parts(p) - opaque_parts(q), key=str), sorted(opaque_parts(q) - opaque_parts(p), key=str)
+                al = align_opaque(pp, qq) if (pp or qq) else None
+                if al:
+                    sub = al[0][2]
+            if sub is None:
+                return None
+            reason = sub
+        return reason
+    return None
+
+
+def term_definite_difference(a, b, depth=0):
+    """Two value-graph terms of identical shape that differ only in index expressions (not identically equal), numeric
+    constants, comparison operators or attribute names.  Returns a reason or None."""
+    if a == b:
+        return None if depth else None
+    if not (isinstance(a, tuple) and isinstance(b, tuple)):
+        return None
+    ka, kb = a[0] if a else None, b[0] if b else None
+    if ka == "const" and kb == "const":
+        va, vb = a[1], b[1]
+        if isinstance(va, (int, float)) and isinstance(vb, (int, float)) and not isinstance(va, bool) and not isinstance(vb, bool) and va != vb:
+            return f"constant {va} vs {vb}"
+        return None
+    idx_like = ("const", "loopvar", "bin", "un", "elem", "sub")
+    if ka in idx_like and kb in idx_like and (ka != kb or ka in ("bin", "loopvar", "elem")):
+        # index arithmetic over loop variables / constants
+        try:
+            lv = {}
+
+            def at(t):
+                if t[0] in ("loopvar", "elem", "sym", "sub", "attr"):
+                    return lv.setdefault(t, sp.Symbol(f"i{len(lv)}", integer=True))
+                return None
+            tr = Translator(at)
+            tr.ufuncs = False
+            ea, eb = tr.tr(a), tr.tr(b)
+            if sp.expand(ea - eb) != 0:
+                return f"index {sp.sstr(ea)} vs {sp.sstr(eb)}"
+        except Exception:  # noqa
+            pass
+        if ka != kb:
+            return None
+    if ka != kb or len(a) != len(b):
+        return None
+    if ka == "cmp":
+        if a[1] != b[1]:
+            r1 = term_definite_difference(a[2], b[2], depth + 1) if a[2] != b[2] else "same"
+            r2 = term_definite_difference(a[3], b[3], depth + 1) if a[3] != b[3] else "same"
+            if a[2] == b[2] and a[3] == b[3]:
+                return f"comparison {a[1]} vs {b[1]}"
+            return None
+    if ka == "attr":
+        if a[2] != b[2]:
+            return f"attribute .{a[2]} vs .{b[2]}" if a[1] == b[1] else None
+        return term_definite_difference(a[1], b[1], depth + 1)
+    if ka == "call":
+        if a[1] != b[1] or len(a[2]) != len(b[2]) or [k for k, _ in a[3]] != [k for k, _ in b[3]]:
+            return None
+        reason = None
+        for p, q in list(zip(a[2], b[2])) + [(v, w) for (_, v), (_, w) in zip(a[3], b[3])]:
+            if p == q:
+                continue
+            r = term_definite_difference(p, q, depth + 1)
+            if r is None:
+                return None
+            reason = r
+        return reason
+    if ka in ("sub", "bin", "un", "tuple", "list", "slice", "elem", "phi"):
+        reason = None
+        for p, q in zip(a[1:], b[1:]):
+            if p == q:
+                continue
+            if isinstance(p, str) or isinstance(q, str):
+                return None
+            if isinstance(p, tuple) and p and not isinstance(p[0], str):
+                # tuple of terms
+                if len(p) != len(q):
+                    return None
+                for pp, qq in zip(p, q):
+                    if pp == qq:
+                        continue
+                    r = term_definite_difference(pp, qq, depth + 1)
+                    if r is None:
+                        return None
+                    reason = r
+                continue
+            r = term_definite_difference(p, q, depth + 1)
+            if r is None:
+                return None
+            reason = r
+        return reason
+    return None
+
+
+def opaque_parts(e: sp.Expr) -> set:
+    """maximal uninterpreted sub-expressions: applications of undefined functions and symbols without a declared role"""
+    out = set()
+
+    def visit(x):
+        if isinstance(x, sp.Symbol):
+            if x.name.startswith(OPAQUE_MARK):
+                out.add(x)
+            return
+        if isinstance(x, sp.core.function.AppliedUndef):
+            out.add(x)
+            return
+        for a_ in getattr(x, "args", ()):
+            visit(a_)
+    visit(sp.sympify(e))
+    return out
 
 
 def equal_terms(a: Term, b: Term, atom_of=None, positive=False) -> Tuple[Optional[bool], str]:
